@@ -782,6 +782,29 @@ pub fn gen_wild(r: &mut Rng, nonce: u64, steps: u32, step_ms: u64) -> EchoReq {
     }
 }
 
+/// `GET /pal/{colors:.*}`: a wildcard typed as a list of enum values.
+pub fn gen_pal(r: &mut Rng, nonce: u64, steps: u32, step_ms: u64) -> EchoReq {
+    let n = r.usize_in(0, 5);
+    let names: Vec<&str> = (0..n).map(|_| *r.pick(&["Red", "Green", "Blue"])).collect();
+    let mut path_segs = vec!["pal".to_string()];
+    for s in &names {
+        path_segs.push(enc_seg(r, s));
+    }
+    EchoReq {
+        op: "echo_pal",
+        method: "GET",
+        path_segs,
+        query: vec![],
+        headers: base_headers(r, nonce, steps, step_ms),
+        ctype: None,
+        ctype_name: "content-type",
+        body: None,
+        framing: BodyFraming::None,
+        canon: json!({"path": {"colors": names}}),
+        boundary_style: 0,
+    }
+}
+
 pub fn gen_narrow(r: &mut Rng, nonce: u64, steps: u32, step_ms: u64) -> EchoReq {
     let a = *r.pick(&[0u8, 1, 255, 128]);
     let b = *r.pick(&[i16::MIN, -1, 0, i16::MAX]);
@@ -830,8 +853,32 @@ pub fn gen_thing(r: &mut Rng, nonce: u64, steps: u32, step_ms: u64) -> (EchoReq,
     (e, ver.to_string())
 }
 
+/// `PUT /small` (the endpoint's own limit is 16 bytes): a body of at most
+/// the limit - half of them exactly the limit - in any framing.
+pub fn gen_small(r: &mut Rng, nonce: u64, steps: u32, step_ms: u64) -> EchoReq {
+    let n = if r.chance(1, 2) { 16 } else { r.usize_in(0, 16) };
+    let body = r.bytes(n);
+    let hexb = crate::api::echo::hex(&body);
+    let framing = gen_framing(r, body.len());
+    EchoReq {
+        op: "echo_small",
+        method: "PUT",
+        path_segs: vec!["small".into()],
+        query: vec![],
+        headers: base_headers(r, nonce, steps, step_ms),
+        ctype: None,
+        ctype_name: "content-type",
+        body: Some(body),
+        framing,
+        canon: json!({"body": hexb}),
+        boundary_style: 0,
+    }
+}
+
 pub fn gen_any(r: &mut Rng, nonce: u64, steps: u32, step_ms: u64) -> EchoReq {
-    match r.below(13) {
+    match r.below(15) {
+        14 => gen_pal(r, nonce, steps, step_ms),
+        13 => gen_small(r, nonce, steps, step_ms),
         12 => gen_who(r, nonce, steps, step_ms),
         11 => gen_page(r, nonce, steps, step_ms),
         10 => gen_rawreq(r, nonce, steps, step_ms),
